@@ -102,7 +102,10 @@ def specs(rng, tier, wid, nw, env):
         for kk in (range(0, 1300) if q else range(0, 2600)):
             k += 1
             if k % nw == wid: yield ('copyat', g, kk, rng.choice(SEEDS), rng.getrandbits(48))
-    shapes = [('urandomb', 64), ('urandomb', 1), ('urandomb', 32), ('urandomb', 100), ('urandomb', 8), ('ui_b', 64), ('ui_b', 17), ('urandomm', 7), ('urandomm', 1000), ('urandomm', (1 << 64) - 59), ('urandomm', 3 << 62), ('urandomm', (1 << 33) + 1), ('urandomm', (1 << 65) - 1), ('urandomm', 3 << 63), ('urandomm', (1 << 65) + (1 << 64) - 1), ('urandomm', (1 << 64) + 1), ('urandomm', (1 << 128) + (1 << 127) - 1), ('urandomm', (1 << 127) + (1 << 64)), ('ui_m', 10), ('ui_m', (1 << 63) + 1), ('ui_m', 3 << 62), ('ui_m', (1 << 64) - 1), ('mpf', 64), ('lchalf', 0), ('mpn_b', 128)]
+    shapes = [('urandomb', 64), ('urandomb', 1), ('urandomb', 32), ('urandomb', 100), ('urandomb', 8), ('ui_b', 64), ('ui_b', 17), ('urandomm', 7), ('urandomm', 1000), ('urandomm', (1 << 64) - 59), ('urandomm', 3 << 62), ('urandomm', (1 << 33) + 1), ('urandomm', (1 << 65) - 1), ('urandomm', 3 << 63), ('urandomm', (1 << 65) + (1 << 64) - 1), ('urandomm', (1 << 64) + 1), ('urandomm', (1 << 128) + (1 << 127) - 1), ('urandomm', (1 << 127) + (1 << 64)), ('urandomm', (1 << 128) + (1 << 63) + 0x123), ('urandomm', (2 << 64) + ((1 << 64) - 1) // 3), ('urandomm', (1 << 64) + 0x123),
+              ('mpn_m', 7), ('mpn_m', (1 << 64) - 59), ('mpn_m', 3 << 62), ('mpn_m', (1 << 65) - 1), ('mpn_m', 3 << 63), ('mpn_m', (1 << 65) + (1 << 64) - 1), ('mpn_m', (1 << 64) + 1), ('mpn_m', (1 << 64) + 0x123),
+              ('mpn_m', (1 << 128) + (1 << 127) - 1), ('mpn_m', (1 << 127) + (1 << 64)), ('mpn_m', (1 << 128) + (1 << 63) + 0x123), ('mpn_m', (2 << 64) + ((1 << 64) - 1) // 3), ('mpn_m', 1 << 64), ('mpn_m', 1 << 130),
+              ('ui_m', 10), ('ui_m', (1 << 63) + 1), ('ui_m', 3 << 62), ('ui_m', (1 << 64) - 1), ('mpf', 64), ('lchalf', 0), ('mpn_b', 128)]
     for g in GENS:
         for sh in shapes:
             for rep in range(1 if q else 4):
@@ -238,6 +241,8 @@ def build(spec, env):
         elif shape == 'mpn_b': nb = par; one = 'c mpn_urandomb L0:%d R0 #%d' % ((nb + 63) // 64, nb)
         elif shape == 'urandomm': nb = None; cmds.append('z Z2 %s' % hx(par)); base += 1; one = 'c mpz_urandomm Z1 R0 Z2'
         elif shape == 'ui_m': nb = None; one = 'c gmp_urandomm_ui R0 #%d' % par
+        elif shape == 'mpn_m':
+            nb = None; nl = gen.nlimbs(par); cmds.append('l 1 %d %s' % (nl, hx(par))); base += 1; one = 'c mpn_urandomm L0:%d R0 L1 #%d' % (nl, nl)
         else: nb = par; cmds.append('f F1 128 0 0 0'); base += 1; one = 'c mpf_urandomb F1 R0 #%d' % nb
         cmds += [one] * N
         def check(rep, N=N, nb=nb, shape=shape, par=par, g=g):
@@ -245,6 +250,7 @@ def build(spec, env):
             for i in range(N):
                 t = rep[base + i].split()[1]
                 if shape == 'mpn_b': x = int(t.split('=')[1], 16)
+                elif shape == 'mpn_m': x = [int(w.split('=')[1], 16) for w in rep[base + i].split() if w.startswith('L0=')][0]
                 elif shape in ('ui_b', 'ui_m'): x = int(t)
                 elif shape == 'mpf':
                     p, e, s, m = parse_f(t); fx = models.mpf_value(p, e, s, m)
